@@ -59,5 +59,6 @@ Emit == PrintT(ToJson([rows |-> rows,
                        scoresLO |-> [k \in 1..W |-> Scores(rows, LogOdds(k), k)],
                        minim |-> [k \in 1..W |-> [w \in 1..W |-> IF w >= k THEN Minimizers(rows, k, w) ELSE <<>>]],
                        index |-> [k \in 1..W |-> Index(rows, k)],
+                       rowcounts |-> [k \in 1..W |-> RowCounts(rows, k)],
                        counts |-> [k \in 1..W |-> Counts(rows, k)]]))
 ==============================================================================
